@@ -49,6 +49,22 @@ class Outcome:
         return (self.kind, self.value if isinstance(self.value, (bool, int, type(None))) else "<expr>")
 
 
+class _Closure(dict):
+    """Environment of a local function call: own frame first, reads and writes of free names go to the enclosing environment."""
+    def __init__(self, outer, frame):
+        super().__init__(frame)
+        self.outer = outer
+
+    def __contains__(self, k):
+        return dict.__contains__(self, k) or k in self.outer
+
+    def __getitem__(self, k):
+        return dict.__getitem__(self, k) if dict.__contains__(self, k) else self.outer[k]
+
+    def get(self, k, d=None):
+        return self[k] if k in self else d
+
+
 class View:
     """Model of a memoryview over a bytearray (or bytes): slicing gives a view on the same buffer, slice assignment writes through
     and - like the real memoryview - refuses a value of another length."""
@@ -74,6 +90,18 @@ class View:
             return False  # ValueError / TypeError in the real object
         self.base[v.lo:v.hi] = data
         return True
+
+
+class LocalFunc:
+    """A function defined inside the evaluated body: called with the defining evaluator's environment as its closure."""
+    def __init__(self, node: ast.FunctionDef, owner: "Evaluator"):
+        self.node, self.owner = node, owner
+
+
+class BoundRef:
+    """`obj.method` taken as a value (stored in a table, passed on) and called later."""
+    def __init__(self, obj, attr: str):
+        self.obj, self.attr = obj, attr
 
 
 class ModelRaise(Exception):
@@ -115,10 +143,59 @@ class Evaluator:
             v = self.call_value(e, self)
             if v is not NOT_MODELLED:
                 return v
+        if isinstance(e, ast.Call) and isinstance(e.func, ast.Name) and isinstance(self.env.get(e.func.id), LocalFunc):
+            lf = self.env[e.func.id]
+            a = lf.node.args
+            params = [x.arg for x in a.args]
+            if a.vararg or a.kwarg or len(e.args) > len(params):
+                raise Unsupported(e)
+            frame = {}
+            for n_, x in zip(params, e.args):
+                frame[n_] = self.ev(x)
+            for k in e.keywords:
+                if k.arg not in params + [x.arg for x in a.kwonlyargs]:
+                    raise Unsupported(e)
+                frame[k.arg] = self.ev(k.value)
+            defaults = dict(zip(params[len(params) - len(a.defaults):], a.defaults))
+            for n_ in params:
+                if n_ not in frame:
+                    if n_ not in defaults:
+                        raise Unsupported(e)
+                    frame[n_] = lf.owner.ev(defaults[n_])
+            if getattr(self, "_depth", 0) > 40:
+                raise Unsupported(e, "recursion too deep on the model")
+            sub = Evaluator.__new__(Evaluator)
+            sub.__dict__.update(self.__dict__)
+            sub._depth = getattr(self, "_depth", 0) + 1
+            sub.env = _Closure(lf.owner.env, frame)
+            out = sub.run([s for s in lf.node.body])
+            if out.kind == "raise":
+                raise ModelRaise(out)
+            return out.value if out.kind == "return" else None
+        if isinstance(e, ast.Call) and isinstance(e.func, ast.Attribute) and e.func.attr in ("split", "startswith", "endswith", "replace") and 1 <= len(e.args) <= 2 and not e.keywords:
+            try:
+                v = self.ev(e.func.value)
+            except Unsupported:
+                v = None
+            if isinstance(v, (str, bytes)):
+                r = getattr(v, e.func.attr)(*[self.ev(a) for a in e.args])
+                return tuple(r) if isinstance(r, list) else r
+        if isinstance(e, ast.Call) and isinstance(e.func, ast.Attribute) and e.func.attr in ("upper", "lower", "strip", "lstrip", "rstrip", "hex") and not e.args and not e.keywords:
+            try:
+                v = self.ev(e.func.value)
+            except Unsupported:
+                v = None
+            if isinstance(v, (str, bytes)) and not (e.func.attr == "hex" and isinstance(v, str)):
+                return getattr(v, e.func.attr)()
         if isinstance(e, ast.Subscript):
             base = self.ev(e.value)
             if isinstance(base, View) and isinstance(e.slice, ast.Slice) and e.slice.step is None:
                 return base.sub(self.ev(e.slice.lower) if e.slice.lower is not None else None, self.ev(e.slice.upper) if e.slice.upper is not None else None)
+            if isinstance(base, dict) and not isinstance(e.slice, ast.Slice):
+                k = self.ev(e.slice)
+                if k in base:
+                    return base[k]
+                raise ModelRaise(Outcome("raise", "KeyError", e))
             if isinstance(base, (tuple, str, bytes, bytearray)):
                 if isinstance(e.slice, ast.Slice):
                     lo = self.ev(e.slice.lower) if e.slice.lower is not None else None
@@ -151,7 +228,26 @@ class Evaluator:
                 v = self.call_value(ast.copy_location(fake, e), self)
                 if v is not NOT_MODELLED:
                     return v
+            if isinstance(base, Obj) and isinstance(e.ctx, ast.Load):
+                return BoundRef(base, e.attr)
             raise Unsupported(e, "unbound attribute")
+        if isinstance(e, ast.Dict) and all(k is not None for k in e.keys):
+            try:
+                return {self.ev(k): self.ev(v) for k, v in zip(e.keys, e.values)}
+            except TypeError:
+                raise Unsupported(e)
+        if isinstance(e, ast.Call) and not isinstance(e.func, (ast.Name, ast.Attribute)) or (isinstance(e, ast.Call) and isinstance(e.func, ast.Name) and isinstance(self.env.get(e.func.id), BoundRef)):
+            # calling a value: a bound method reference taken earlier (table dispatch)
+            fv = self.ev(e.func)
+            if isinstance(fv, BoundRef):
+                self.env["__recv__"] = fv.obj
+                fake = ast.copy_location(ast.Call(func=ast.Attribute(value=ast.Name(id="__recv__", ctx=ast.Load()), attr=fv.attr, ctx=ast.Load()), args=e.args, keywords=e.keywords), e)
+                ast.fix_missing_locations(fake)
+                try:
+                    return self.ev(fake)
+                finally:
+                    self.env.pop("__recv__", None)
+            raise Unsupported(e)
         if isinstance(e, ast.Call) and isinstance(e.func, ast.Name) and e.func.id in ("len", "max", "min", "abs", "int", "bool", "sum", "any", "all", "str", "tuple", "list", "range", "bytes", "divmod", "bytearray", "reversed", "enumerate", "sorted", "zip") \
                 and all(k.arg in ("default", "start") for k in e.keywords):
             args = [self.ev(a) for a in e.args]
@@ -365,6 +461,22 @@ class Evaluator:
                     v = self.ev(st.value.args[0])
                     self.env[f.value.id] = self.env[f.value.id] + ((v,) if f.attr == "append" else tuple(v))
                     return None
+                if isinstance(f, ast.Attribute) and f.attr in ("extend", "append", "reverse", "clear") and isinstance(f.value, ast.Name) and isinstance(self.env.get(f.value.id), bytearray) \
+                        and not st.value.keywords and len(st.value.args) == (0 if f.attr in ("reverse", "clear") else 1):
+                    buf = self.env[f.value.id]
+                    if f.attr == "reverse":
+                        buf.reverse()
+                    elif f.attr == "clear":
+                        buf.clear()
+                    else:
+                        v = self.ev(st.value.args[0])
+                        if isinstance(v, View):
+                            v = v.tobytes()
+                        try:
+                            buf.extend(v) if f.attr == "extend" else buf.append(v)
+                        except (TypeError, ValueError):
+                            raise Unsupported(st)
+                    return None
                 if isinstance(f, ast.Attribute) and f.attr == "insert" and isinstance(f.value, ast.Name) and isinstance(self.env.get(f.value.id), tuple) \
                         and len(st.value.args) == 2 and not st.value.keywords:
                     i, v = self.ev(st.value.args[0]), self.ev(st.value.args[1])
@@ -376,8 +488,14 @@ class Evaluator:
                     return None
                 if getattr(self, "call_value", None) is not None and self.call_value(st.value, self) is not NOT_MODELLED:
                     return None
+                if isinstance(f, ast.Name) and isinstance(self.env.get(f.id), LocalFunc):
+                    self.ev(st.value)  # a local function called for its effect on the model
+                    return None
             raise Unsupported(st)
-        if isinstance(st, ast.Pass):
+        if isinstance(st, ast.Pass) or isinstance(st, (ast.Import, ast.ImportFrom)):
+            return None
+        if isinstance(st, ast.FunctionDef) and not st.decorator_list:
+            self.env[st.name] = LocalFunc(st, self)
             return None
         if isinstance(st, ast.If):
             branch = st.body if self.ev(st.test) else st.orelse
@@ -611,14 +729,15 @@ def grid(names: List[str], lo: int, hi: int, constraints: Optional[Callable[[Dic
 def decide(body: List[ast.stmt], names: List[str], reference: Callable[[Dict[str, int]], Tuple[str, Any]],
            lo: int = -1, hi: int = 5, sym_factory: Optional[Callable[[Dict[str, int]], SymFn]] = None,
            constraints: Optional[Callable[[Dict[str, int]], bool]] = None, consts: Optional[Dict[str, Any]] = None,
-           stop_at_unsupported: bool = True, values: Optional[Dict[str, List[int]]] = None) -> Tuple[int, Optional[Dict[str, Any]]]:
+           stop_at_unsupported: bool = True, values: Optional[Dict[str, List[int]]] = None,
+           call_value: Optional[Callable[[ast.Call, "Evaluator"], Any]] = None) -> Tuple[int, Optional[Dict[str, Any]]]:
     """Evaluate body on the grid; returns (points evaluated, first counterexample or None).
     reference(env) -> expected Outcome.sig()."""
     n = 0
     for env in grid(names, lo, hi, constraints, values):
         full = dict(consts or {})
         full.update(env)
-        evr = Evaluator(full, sym_factory(env) if sym_factory else None)
+        evr = Evaluator(full, sym_factory(env) if sym_factory else None, call_value=call_value)
         out = evr.run(body, stop_at_unsupported=stop_at_unsupported)
         n += 1
         exp = reference(env)
